@@ -31,6 +31,13 @@ SignedUnderL5(n) == IsK(n, "BinaryExpr") /\ Prec(n.Op) = 5 /\ IsK(n.RHS, "Binary
                     /\ IsK(n.RHS.LHS, "IntegerLiteral") /\ n.RHS.LHS.Val \in {"-1", "1"}
                     /\ n.RHS.RHS.k \in {"VarRef", "Call", "ParenExpr"}
 
+\* some node of the value has the deviation's shape (no sets of heterogeneous records are built)
+RECURSIVE AnySigned(_)
+AnySigned(x) == LET kd == KindOf(x) IN
+  IF kd = "rec" THEN SignedUnderL5(x) \/ \E f \in DOMAIN x : AnySigned(x[f])
+  ELSE IF kd = "seq" THEN \E i \in DOMAIN x : AnySigned(x[i])
+  ELSE FALSE
+
 Sig(r) == r.kind \o (IF r.sub = "" THEN "" ELSE "/" \o r.sub)
 Verdicts(r) ==
   LET o == r.obs IN
@@ -38,8 +45,8 @@ Verdicts(r) ==
   ELSE IF Has(o, "spanic") THEN {V("string-panics", Sig(r))}
   ELSE IF Has(o, "rpanic") THEN {V("reparse-panics", Sig(r))}
   ELSE IF Has(o, "rerr") THEN {V("print-rejected", Sig(r))}
-  ELSE IF NoPw(o.reparse) = NoPw(o.ast) THEN {}
-  ELSE IF (\E n \in Nodes(o.ast) : SignedUnderL5(n)) /\ o.reparse = RP(o.ast) THEN {V("Dev_UnaryMinusNoParen", "")}
+  ELSE IF SameAst(NoPw(o.reparse), NoPw(o.ast)) THEN {}
+  ELSE IF AnySigned(o.ast) /\ SameAst(o.reparse, RP(o.ast)) THEN {V("Dev_UnaryMinusNoParen", "")}
   ELSE {V("print-changes-ast", Sig(r))}
 
 NonTrivial(r) == Has(r.obs, "ast") /\ Cardinality(DOMAIN r.obs.ast) >= 3
